@@ -1,7 +1,7 @@
 """C14 - Options hold what was set, reject invalid values, and stay private to a client."""
 import itertools
 
-from harness import common, wsdlkit
+from harness import common, wsdlkit, xmlread
 
 ID = "C14"
 LEAN_MODULES = ["SudsModel.Props.C14"]
@@ -501,8 +501,72 @@ def run(ctx):
         judge(ctx, script, S, meta, obs, names)
     flush(ctx)
     transport_follows_options(ctx)
+    clone_behaviour(ctx)
     ctx.sample({"script": [{"k": "client"}, {"k": "clone", "c": 0}, {"k": "tset", "c": 1, "name": "timeout", "value": 5},
                            {"k": "set", "c": 0, "name": "faults", "value": "yes"}]})
+
+
+def kf_clone_binding_options(f, k):
+    """D49: an option that acts inside the shared bindings (soapheaders, prefixes, xstq, wsse), set on a CLONE,
+    is not used by the clone's requests - they are built with the ORIGINAL's value."""
+    return (f.get("input") or {}).get("stream") == "clone-behaviour" and f.get("observed") == "the original's value"
+
+
+CLASSIFIERS = {"c14_clone_binding_options": kf_clone_binding_options}
+
+
+def clone_uses_originals_binding_options():
+    """D49 witness: True when a clone's request carries the original's soapheaders."""
+    from harness.props import c15
+    from suds.sax.element import Element
+
+    def tok(t):
+        e = Element("Token", ns=("auth", "urn:auth"))
+        e.setText(t)
+        return e
+    c = wsdlkit.client(c15.wsdl_two_ops("http://h.invalid/x"), nosend=True, soapheaders=tok("ORIGINAL"))
+    k = c.clone()
+    k.set_options(soapheaders=tok("CLONE"))
+    return b"CLONE" not in k.service.f().envelope
+
+
+def clone_behaviour(ctx):
+    """'Options of a clone and of its original are independent in both directions' - also in what the requests look
+    like: every option set on one of the two decides that client's requests and leaves the other's alone."""
+    from harness.props import c15
+    from suds.sax.element import Element
+
+    def tok(t):
+        e = Element("Token", ns=("auth", "urn:auth"))
+        e.setText(t)
+        return e
+
+    def shape(client):
+        env = client.service.f().envelope
+        root = xmlread.parse(env)
+        toks = [n.get("text") for n in xmlread.walk(root) if n["name"] == ("urn:auth", "Token")]
+        return {"soapheaders": toks[0] if toks else None, "prefixes": b"<ns" in env or b":f" in env,
+                "prettyxml": b"\n" in env.split(b"?>", 1)[-1]}
+    w = c15.wsdl_two_ops("http://h.invalid/x")
+    settings = {"soapheaders": (tok("ORIGINAL"), tok("CLONE"), "ORIGINAL", "CLONE"), "prefixes": (True, False, True, False),
+                "prettyxml": (False, True, False, True)}
+    for name, (orig_v, clone_v, orig_shape, clone_shape) in settings.items():
+        for who in ("clone", "original"):
+            c = wsdlkit.client(w, nosend=True, **{name: orig_v})
+            k = c.clone()
+            (k if who == "clone" else c).set_options(**{name: clone_v})
+            meta = {"stream": "clone-behaviour", "option": name, "changed_on": who}
+            ctx.case(common.canon(meta), True)
+            got_c, got_k = shape(c)[name], shape(k)[name]
+            want_c, want_k = (orig_shape, clone_shape) if who == "clone" else (clone_shape, orig_shape)
+            if got_k != want_k:
+                ctx.fail("an option set on one of a client and its clone does not decide that client's requests",
+                         dict(meta, request_of="clone"), "the original's value" if got_k == got_c else repr(got_k),
+                         repr(want_k))
+            if got_c != want_c:
+                ctx.fail("an option set on one of a client and its clone does not decide that client's requests",
+                         dict(meta, request_of="original"), "the clone's value" if got_c == got_k else repr(got_c),
+                         repr(want_c))
 
 
 def transport_follows_options(ctx):
@@ -553,6 +617,12 @@ def transport_follows_options(ctx):
     finally:
         for srv in (origin, proxy_a, proxy_b):
             srv.close()
+
+
+def witness(ctx, k):
+    if (k.get("witness") or {}).get("kind") == "clone-binding-options":
+        return clone_uses_originals_binding_options()
+    return None
 
 
 def widen(ctx):
